@@ -77,7 +77,7 @@ func VerifC11SharedRelationJoin() {
 	B := mk("b", "c", [][2]int{{2, 5}, {4, 6}})
 	ctx := context.Background()
 	join := func() int {
-		v, err := NewJoinExpr(parser.Scanner{}, A, B).Eval(ctx, EmptyScope)
+		v, err := NewJoinExpr(*parser.NewScanner(""), A, B).Eval(ctx, EmptyScope)
 		if err != nil {
 			return -1
 		}
